@@ -39,6 +39,15 @@ Theorem C06_removed_only_owned :
          false = true).
 Proof. exact removed_only_owned_finalize. Qed.
 
+(* remove_deletable_files on its own, for every queue (whoever filled it: File.before_delete or
+   revert_optional_steps) and every tree: a path is removed as a file only if it is queued, could be unlinked, and
+   is queued as volatile or reads, on the tree before the cleanup, as exactly the queued hash. *)
+Theorem C06_rdf_removes_only_queued :
+  forall q f p, In p (r_files (remove_deletable_files q f)) ->
+    is_unlinkable (fs_get f p) = true /\
+    (qfile_get q p = Some None \/ exists h0, stat f p = SFile h0 /\ qfile_get q p = Some (Some h0)).
+Proof. exact (fun q f p H => proj2 (rdf_trace q f) p H). Qed.
+
 (* The same split by what was at the path: a regular file went only if volatile or with exactly the recorded
    hash; a symbolic link went only if volatile or if it led to a regular file (another entry q of the tree) with
    exactly the recorded hash. *)
